@@ -210,7 +210,7 @@ def check(tier, seed, runs, workers, secs):
         "coverage": {
             "evaluations": runs_done,
             "distinct_nontrivial": len(sigs),
-            "rule": "Each evaluation is one seeded simulation: 2-4 executions (interpreter / x86-64 JIT / Cranelift, real machine code) with 1-4 atomic adds each on 1-3 shared words, first each alone, then all together under a seeded scheduler that decides the order of every access to the shared page (LOCKed RMW / load / store = one step; RMW without LOCK = two steps with a scheduling point in between). Non-trivial = at least two executions write the same 8-byte slot and their writes to it are interleaved; distinct_nontrivial counts distinct schedule signatures (hash of the sequence of (execution, engine, micro-operation kind, offset, width)) among non-trivial runs.",
+            "rule": "Each evaluation is one seeded simulation: 2-4 executions (interpreter / x86-64 JIT / Cranelift, real machine code) with 1-4 atomic adds each on 1-3 shared words (straight-line, in counter loops, in a local function, after a helper call, with conditional jumps right after an add), first each alone, then all together under a seeded scheduler that decides the order of every access to the shared page (LOCKed RMW / load / store = one step; RMW without LOCK = two steps with a scheduling point in between). Non-trivial = at least two executions write the same 8-byte slot and their writes to it are interleaved; distinct_nontrivial counts distinct schedule signatures (hash of the sequence of (execution, engine, micro-operation kind, offset, width)) among non-trivial runs.",
             "samples": samples if samples else [{"note": "no violation-free non-trivial run in this batch"}],
             "nontrivial_runs": nontrivial,
             "runs_per_hour": int(runs_done / sim_wall * 3600),
